@@ -52,7 +52,9 @@ def run (ctx):
     c = [c for c in q.node_calls(e) if switchq.is_send_error(c)][0]
     if norm(kwarg(c, 'type', 0)) == 'OFPET_FLOW_MOD_FAILED' and norm(kwarg(c, 'code', 1)) == 'OFPFMFC_BAD_COMMAND':
       facts = q.fact_strs(g, e)
-      ret_after = g.postdominates([n for n in g.nodes if n.kind == 'return'], e)
+      # nothing else happens: no further (non-logging) call is reachable from the error send
+      after_ = [n for n in g.reachable(e, exc=False) if n is not e and any(not (isinstance(c_.func, ast.Attribute) and ('log' in norm(c_.func.value))) for c_ in q.node_calls(n))]
+      ret_after = not after_
       okerr = any(f.endswith('is None') for f in facts) and ret_after
   ctx.ob('R-EFFECT', rx, "unknown command answered with FLOW_MOD_FAILED/BAD_COMMAND and nothing else happens", okerr,
          "error under `handler is None`, followed by return" if okerr else "the unknown-command path no longer sends BAD_COMMAND and returns", rx, 'D1')
